@@ -742,6 +742,9 @@ class C18(Check):
                         unsupported.add(tpl.key)
                     else:
                         res.dropped[drop] += 1
+                        if drop.startswith("miasm does not disassemble"):
+                            res.counters["undecodable:" + tpl.mn] += 1
+                            unsupported.add(tpl.key)      # same bytes for every case of the template
                     continue
                 key = (tpl.key, tuple(vals), flags) if nt else None
                 sample = None
@@ -867,6 +870,7 @@ class C18(Check):
                 "mnemonics_executed": len(mn),
                 "unsupported_mnemonics": sorted(k.split(":", 1)[1] for k in m.counters if k.startswith("unsupported:")),
                 "assembler_rejected_mnemonics": sorted(k.split(":", 1)[1] for k in m.counters if k.startswith("asm-rejected:")),
+                "not_disassembled_by_miasm": sorted(k.split(":", 1)[1] for k in m.counters if k.startswith("undecodable:")),
                 "llvm_rejected_mnemonics": sorted(k.split(":", 1)[1] for k in m.counters if k.startswith("llvm-rejects:"))}
 
 
